@@ -210,6 +210,13 @@ func (c *Collection) set(key string, exp Exp, opts *sgbucket.UpsertOptions, val 
 		if err != nil {
 			return nil, err
 		}
+		if opts != nil && opts.PreserveExpiry {
+			// the event must carry the expiry that was kept, not the one that was passed in
+			row := txn.QueryRow(`SELECT exp FROM documents WHERE collection=?1 AND key=?2`, c.id, key)
+			if err = scan(row, &exp); err != nil {
+				return nil, err
+			}
+		}
 		return &event{
 			key:      key,
 			value:    val,
